@@ -47,6 +47,15 @@ func TestC11(t *testing.T) {
 		c.Prologue = rapid.SampledFrom([]int{0, 1, 1, 2}).Draw(rt, "prologue11")
 		cuts := rapid.SliceOfN(rapid.IntRange(0, 10000), 1, 5).Draw(rt, "cuts")
 		snap := rapid.SliceOfN(rapid.IntRange(-2, 2), 1, 5).Draw(rt, "snapToBatch")
+		// tuning knob (tools/srcpatch.json turns the constant into a variable with the same default): two runs in five use a
+		// small ideal batch size, so that size-triggered flushes happen at the sizes a simulated chain reaches
+		batchKnob := rapid.SampledFrom([]int{0, 0, 0, 512, 6 << 10}).Draw(rt, "idealBatchSize")
+		if batchKnob > 0 {
+			oldIdeal := ethdb.IdealBatchSize
+			ethdb.IdealBatchSize = batchKnob
+			defer func() { ethdb.IdealBatchSize = oldIdeal }()
+			simkit.Global.Inc(fmt.Sprintf("knob.ideal_batch_size_%d", batchKnob))
+		}
 		tr := simkit.NewTrace()
 		var v *violation
 		fail := func(class, witness, detail string) {
@@ -254,7 +263,7 @@ func TestC11(t *testing.T) {
 			if nl != "" {
 				v.detail += "\nnodelog tail:\n" + nl
 			}
-			if simkit.Violation(rt, tr, "C11", v.class, v.witness, fmt.Sprintf("%s\nprologue=%d tape=%v cuts=%v snap=%v", v.detail, c.Prologue, renderTape(c.Tape), cuts, snap)) {
+			if simkit.Violation(rt, tr, "C11", v.class, v.witness, fmt.Sprintf("%s\nprologue=%d tape=%v cuts=%v snap=%v idealBatchSize=%d", v.detail, c.Prologue, renderTape(c.Tape), cuts, snap, batchKnob)) {
 				panic(simkit.KnownReached{})
 			}
 		}
